@@ -249,7 +249,8 @@ def boundary_ranges(n):
     return ['bytes=' + x for x in specs]
 PAGES = ['tmpl', 'short', 'empty', 'long', 'str', 'iter', 'raise', 'int', 'file']
 CTS = ['html', 'plain', 'json', 'octet', 'xml']
-EXT_KEYS = ('rh', 'acc', 'jin', 'noslash', 'sess', 'av', 'sf', 'er', 'xp', 'tb', 'encu', 'te', 'emsg', 'fo', 'gzl')
+EXT_KEYS = ('rh', 'acc', 'jin', 'noslash', 'sess', 'av', 'sf', 'er', 'xp', 'tb', 'encu', 'te', 'emsg', 'fo', 'gzl',
+            'u8', 'throw')
 ERS = ['-', 'c503', 'c204', 'c999', 'r303', 'r304', 'r306']
 ENTS = ['-', 'ok', 'bad', 'nolen']
 KEY_CODES = {100, 200, 201, 204, 205, 206, 301, 303, 304, 305, 402, 404, 406, 410, 412, 416, 500}
@@ -329,7 +330,16 @@ def normalise(case):
         for r in c['reqs']:
             r['range'] = '-'
             r['ims'] = 0
-    if 'errfails' in tools:
+    if kind == 'R':
+        ext.pop('throw', None)
+    if ext.get('throw'):
+        # request.throw_errors: unexpected errors leave Request.run and are answered by the WSGI exception trapper's
+        # own bare 500 - for the model the same as an error_response that fails.  (Not combined with HEAD: the trapper's
+        # answer is not passed through the HEAD body removal - a debugging switch, reported separately.)
+        for r in c['reqs']:
+            if r['m'] == 'HEAD':
+                r['m'] = 'GET'
+    if 'errfails' in tools or ext.get('throw'):
         ext.pop('er', None)
     if 'expires' not in tools:
         ext.pop('xp', None)
@@ -339,6 +349,12 @@ def normalise(case):
     ns = max(int(r.get('ns', 0)) for r in c['reqs']) if kind != 'R' else 0
     if ns == 2 and ext.get('noslash'):
         ns = 1        # (without the tool a path with a slash too many is simply another resource)
+    if ns == 3:
+        # a path nothing is mounted at: the dispatcher installs NotFound() as the page handler, i.e. a handler that
+        # raises HTTPError(404) without touching the response (default Content-Type, no own length, no stream flag)
+        c['bname'], c['body'], c['st'], c['hcl'], c['hstream'], c['ct'] = 'bytes', BODIES['bytes'], 'e404', 0, 0, 'html'
+        ext.pop('sf', None)
+        ext.pop('rh', None)
     for r in c['reqs']:
         r['ns'] = ns
         if r['m'] != 'POST' or not ext.get('jin'):
@@ -422,7 +438,10 @@ def model_ac(case, ac):
 
 
 def model_line(case):
-    tools = ''.join(TOOL_LETTER[t] for t in case['tools']) + ('j' if case['body'].startswith('J:') else '') or '-'
+    tools = ''.join(TOOL_LETTER[t] for t in case['tools']) + ('j' if case['body'].startswith('J:') else '')
+    if (case.get('ext') or {}).get('throw') and 'errfails' not in case['tools']:
+        tools += 'b'        # (errors reach the trapper's bare 500: for the model an error_response that fails)
+    tools = tools or '-'
     if case['page'] in R.TMPL_PAGES:
         page = 'pt'
     elif case['page'] == 'iter':
@@ -461,7 +480,7 @@ def model_line(case):
         im = 'match' if r['im'].startswith('"') else r['im']
         reqs.append(','.join([r['m'], r['ae'], inm, im, model_ac(case, r['ac']), rg, r.get('cc', '-'),
                               str(r.get('t', 0)), str(r.get('proto', '11')), str(int(r.get('ims', 0))),
-                              str(int(bool(int(r.get('acc', 1))))), str(int(bool(int(r.get('ns', 0))))),
+                              str(int(bool(int(r.get('acc', 1))))), str(int(int(r.get('ns', 0)) in (1, 2))),
                               r.get('ent', '-')]))
     hcl = 'N'
     if case['hcl']:
@@ -713,6 +732,14 @@ def shrink_case(case, sig):
     return cur
 
 
+def real_only(case):
+    """the dimensions of a case that only the real side sees (texts, tracebacks, levels, paths), for keys and reports"""
+    only = ','.join('%s=%s' % (k, v) for k, v in sorted((case.get('ext') or {}).items())
+                    if k in ('tb', 'te', 'emsg', 'fo', 'gzl', 'u8', 'throw', 'encu'))
+    ns3 = any(int(r.get('ns', 0)) == 3 for r in case['reqs'])
+    return (' #' + only if only else '') + (' #path-not-found' if ns3 else '')
+
+
 def process(ctx, cases, compare_model=True, procs=1):
     if not cases:
         return
@@ -732,7 +759,9 @@ def process(ctx, cases, compare_model=True, procs=1):
     lines = [r[2] for r in results]
     model = ctx.model(lines) if compare_model else None
     for idx, (case, (obs, bad, line)) in enumerate(zip(cases, results)):
-        ctx.case(case, nontrivial=nontrivial(case), key=line)
+        # (distinct = distinct driver line + the dimensions only the real side sees: texts, tracebacks, levels ...)
+        line_full = line + real_only(case)
+        ctx.case(case, nontrivial=nontrivial(case), key=line_full)
         ctx.count('body:' + case['bname'])
         ctx.count('status-action:' + case['st'])
         ctx.count('ntools:%d' % len(case['tools']))
@@ -765,10 +794,10 @@ def process(ctx, cases, compare_model=True, procs=1):
                 if small != case:
                     again = [w for w, s2 in eval_case(small)[1] if s2 == sig]
                     if again:
-                        ctx.oracle_fail(small, again[0] + ' :: ' + model_line(small) + '  (shrunk from: ' + line + ')',
-                                        sig)
+                        ctx.oracle_fail(small, again[0] + ' :: ' + model_line(small) + real_only(small) +
+                                        '  (shrunk from: ' + line_full + ')', sig)
                         continue
-            ctx.oracle_fail(case, what + ' :: ' + line, sig)
+            ctx.oracle_fail(case, what + ' :: ' + line_full, sig)
         if model is not None and not bad:
             ctx.compared()
             recs = model[idx].split(' | ')
@@ -778,7 +807,7 @@ def process(ctx, cases, compare_model=True, procs=1):
                 ci, cm = canon_impl(o), canon_model(rec)
                 d = compare(ci, cm, tb=bool((case.get('ext') or {}).get('tb')))
                 if d:
-                    ctx.disagree(case, ci, cm, 'request %d differs in %s :: %s' % (i, d, line))
+                    ctx.disagree(case, ci, cm, 'request %d differs in %s :: %s' % (i, d, line_full))
                     break
 
 
@@ -1032,6 +1061,32 @@ def systematic_round2():
                 for m in ('GET', 'HEAD'):
                     out.append(mk('bytes', st, tools, [req(m, ae='gzip')], page=page,
                                   ext={'emsg': 1, 'tb': 1}))
+    # multi-byte characters in every text the framework builds a page around: exception messages (shown in the
+    # traceback of the error page, of bare_error and of the trapper's 500), the note of a failing custom page, the
+    # message of an HTTPError, redirect targets, a path echoed by the 404 page - on the ordinary, the double-fault
+    # (error_response fails) and the trapper (throw_errors) paths
+    for b, st, hook in (('bytes', 'x', '-'), ('bytes', 'e404', '-'), ('bytes', 'e500', '-'), ('tgen', '-', '-'),
+                        ('graise', '-', '-'), ('nraise', '-', '-'), ('bytes', 'r303', '-'), ('bytes', 'r0', '-'),
+                        ('bytes', 'r306', '-'), ('bytes', 'i', '-'), ('bytes', '-', '60:x:0'), ('bytes', 'e404', '90:x:1'),
+                        ('static', '-', '77:x:1'), ('kclose', '-', '-'), ('xrpcu', 'x', '-')):
+        for path in ([], ['errfails'], ['throw']):
+            for tb in (0, 1):
+                for page in ('tmpl', 'raise', 'file', 'short'):
+                    for tools in ([], ['stream'], ['gzip'], ['caching', 'gzip'], ['encode', 'etags']):
+                        for m in ('GET', 'HEAD', 'POST'):
+                            rq = req(m, ae='gzip')
+                            ext = {'u8': 1, 'tb': tb, 'emsg': 1, 'throw': int('throw' in path)}
+                            out.append(mk(b, st, tools + [t for t in path if t == 'errfails'],
+                                          [rq, dict(rq)] if 'caching' in tools else [rq], page=page, hcl=1, ext=ext))
+    for tb in (0, 1):
+        for path in ([], ['errfails'], ['throw']):
+            for tools in ([], ['stream'], ['gzip'], ['caching'], ['encode', 'gzip', 'etags']):
+                for m in METHODS:
+                    for page in ('tmpl', 'raise', 'short'):
+                        rq = req(m, ae='gzip', ns=3)
+                        out.append(mk('bytes', '-', tools + [t for t in path if t == 'errfails'],
+                                      [rq, dict(rq)] if 'caching' in tools else [rq], page=page,
+                                      ext={'u8': 1, 'tb': tb, 'throw': int('throw' in path)}))
     for b in TEXTY:
         for ac in ACS:
             for tools in (['encode'], ['encode', 'stream']):
@@ -1045,7 +1100,8 @@ def random_ext(rng, tools):
     ext = {}
     if rng.random() < 0.35:
         for k, p in (('rh', 0.2), ('acc', 0.12), ('jin', 0.12), ('noslash', 0.1), ('sess', 0.2), ('av', 0.08),
-                     ('sf', 0.12), ('tb', 0.1), ('encu', 0.1), ('te', 0.1), ('emsg', 0.1), ('fo', 0.15)):
+                     ('sf', 0.12), ('tb', 0.25), ('encu', 0.1), ('te', 0.1), ('emsg', 0.1), ('fo', 0.15),
+                     ('u8', 0.5), ('throw', 0.08)):
             if rng.random() < p:
                 ext[k] = 1
         if ext.get('sf') and rng.random() < 0.5:
@@ -1078,7 +1134,7 @@ def random_case(rng):
     reqs = []
     ae0 = rng.choice(AES) if rng.random() < 0.3 else ('gzip' if 'gzip' in tools else '-')
     ext = random_ext(rng, tools)
-    ns = rng.choice([1, 2]) if rng.random() < 0.06 else 0
+    ns = rng.choice([1, 2, 3]) if rng.random() < 0.08 else 0
     proto0 = '10' if rng.random() < 0.08 else '11'
     for _ in range(nreq):
         reqs.append(req(rng.choice(['GET', 'GET', 'HEAD', 'POST']),
